@@ -15,10 +15,11 @@ structure Inv (s : State) : Prop where
   sorted : (ids s.reqs).Pairwise (· < ·)
   noResp : ∀ r ∈ s.reqs, r.flags.responded = false
   deps : s.hasClass = true → s.hasXq = true
+  accPos : 0 < s.lim.account        -- ACCOUNTLEN is positive
 
 theorem inv_init (hasXq hasClass : Bool) (h : hasClass = true → hasXq = true) :
     Inv { hasXq := hasXq, hasClass := hasClass } :=
-  ⟨by simp [ids], by simp, h⟩
+  ⟨by simp [ids], by simp, h, by show 0 < 64; omega⟩
 
 /-! ### list facts -/
 
@@ -101,14 +102,14 @@ theorem ids_insertReq (r : Req) (reqs : List Req) (hs : (ids reqs).Pairwise (· 
 /-! ### `withReq` -/
 
 /-- the context a handler starts from -/
-def ctx0 (s : State) (r : Req) : Ctx := { req := r, svcs := s.svcs, rules := s.rules, stats := s.stats }
+def ctx0 (s : State) (r : Req) : Ctx := { req := r, svcs := s.svcs, rules := s.rules, stats := s.stats, lim := s.lim }
 
 theorem withReq_eq (s : State) (r : Req) (f : Ctx → M Ctx) :
     withReq s r f = (f (ctx0 s r)).map fun c =>
       ({ s with reqs := if c.gone then removeReq r.client s.reqs else putReq c.req s.reqs,
                 svcs := c.svcs, rules := c.rules, stats := c.stats }, c.out) := by
   unfold withReq ctx0
-  cases f { req := r, svcs := s.svcs, rules := s.rules, stats := s.stats } <;> rfl
+  cases f { req := r, svcs := s.svcs, rules := s.rules, stats := s.stats, lim := s.lim } <;> rfl
 
 theorem withReq_inv {s s' : State} {r : Req} {f : Ctx → M Ctx} {out : List Bytes}
     (hi : Inv s) (hr : r ∈ s.reqs)
@@ -123,7 +124,7 @@ theorem withReq_inv {s s' : State} {r : Req} {f : Ctx → M Ctx} {out : List Byt
     simp only [hx, Except.map, Except.ok.injEq, Prod.mk.injEq] at h
     obtain ⟨rfl, _⟩ := h
     have ho := hf c hx
-    refine ⟨⟨?_, ?_, hi.deps⟩, rfl, rfl, rfl, rfl, rfl⟩
+    refine ⟨⟨?_, ?_, hi.deps, hi.accPos⟩, rfl, rfl, rfl, rfl, rfl⟩
     · dsimp only
       split
       · exact List.Pairwise.sublist (ids_removeReq_sublist _ _) hi.sorted
@@ -208,7 +209,7 @@ theorem newClient_inv {s s' : State} {id : Int} {a p : Bytes} {out : List Bytes}
   | ok r =>
     simp only [hp, bind, Except.bind, pure, Except.pure, Except.ok.injEq, Prod.mk.injEq] at h
     obtain ⟨rfl, rfl⟩ := h
-    refine ⟨⟨?_, ?_, hi.deps⟩, rfl, rfl, rfl⟩
+    refine ⟨⟨?_, ?_, hi.deps, hi.accPos⟩, rfl, rfl, rfl⟩
     · exact (ids_insertReq _ _ hi.sorted).1
     · intro x hx
       rcases (ids_insertReq _ _ hi.sorted).2 x hx with rfl | hm
@@ -497,7 +498,7 @@ theorem stepTimeout_inv {s s' : State} {id : Int} {out : List Bytes} {fired : Bo
 /-! ### whole chunks and whole runs -/
 
 theorem inv_inbuf {s : State} (hi : Inv s) (t : Bytes) : Inv { s with inbuf := t } :=
-  ⟨hi.sorted, hi.noResp, hi.deps⟩
+  ⟨hi.sorted, hi.noResp, hi.deps, hi.accPos⟩
 
 theorem stepLines_total (lines : List Bytes) (s : State) (hi : Inv s) : ∃ res, stepLines s lines = .ok res := by
   induction lines generalizing s with
